@@ -18,7 +18,7 @@ Definition oall (P : prog -> bool) (o : option prog) : bool := match o with Some
 (* no contract call of any kind (native calls included) *)
 Fixpoint nocalls (p : prog) : bool :=
   match p with
-  | NotifyFee | SetFee _ | Move _ _ _ | Call _ _ _ => false
+  | NotifyFee | SetFee _ | Move _ _ _ | MoveNeo _ _ _ | Call _ _ _ => false
   | Seq p q => nocalls p && nocalls q
   | Try b c f => nocalls b && oall nocalls c && oall nocalls f
   | _ => true
@@ -36,7 +36,7 @@ Fixpoint bare_free (p : prog) : bool :=
 (* g2: no finally block (at any depth, callee bodies and payment callbacks included) contains a contract call *)
 Fixpoint g2 (p : prog) : bool :=
   match p with
-  | Move _ _ cb => g2 cb
+  | Move _ _ cb | MoveNeo _ _ cb => g2 cb
   | Seq p q => g2 p && g2 q
   | Call _ _ body => g2 body
   | Try b c f => g2 b && oall g2 c && oall nocalls f
@@ -46,7 +46,7 @@ Fixpoint g2 (p : prog) : bool :=
 (* g1: a catch block that is followed by a finally block makes no un-layered call *)
 Fixpoint g1 (p : prog) : bool :=
   match p with
-  | Move _ _ cb => g1 cb
+  | Move _ _ cb | MoveNeo _ _ cb => g1 cb
   | Seq p q => g1 p && g1 q
   | Call _ _ body => g1 body
   | Try b c f => g1 b && oall g1 c && oall g1 f &&
@@ -54,12 +54,16 @@ Fixpoint g1 (p : prog) : bool :=
   | _ => true
   end.
 
+(* The guard of the theorems.  Syntactic part: only for the Lazy policy (the code before the repair of F13).
+   Semantic part, stated in each theorem as [bad _ = false] / [clean _ = true]: no layered call frame and no payment
+   callback RETURNED while an exception was pending (the ghost flag of the machine).  g2 above is a sufficient
+   syntactic condition for it (g2_clean). *)
 Definition guard (pol : policy) (p : prog) : bool :=
-  g2 p && match pol with Lazy => g1 p | Eager => true end.
+  match pol with Lazy => g1 p | Eager => true end.
 
 (* ---------- abstraction ---------- *)
 
-Definition abs (s : mstate) : istate := mkI (flat (lay s)) (dflt (nc_get (lay s))) (ntf s) (exc s).
+Definition abs (s : mstate) : istate := mkI (flat (lay s)) (dflt (nc_get (lay s))) (dflt (vc_get (lay s))) (ntf s) (exc s).
 Definition ne (s : mstate) : Prop := lay s <> [].
 
 Lemma ne_cons s : ne s -> exists t rest, lay s = t :: rest.
@@ -88,29 +92,32 @@ Proof.
 Qed.
 
 (* leaving a frame normally with no exception pending: the flat view is what the callee left *)
+Lemma abs_mark b s : abs (mark b s) = abs s.
+Proof. reflexivity. Qed.
+
 Lemma unload_commit_abs w s t rest s2 :
   lay s = t :: rest ->
   frameP (fst (entered w t rest)) (snd (entered w t rest)) (ntf s) s2 ->
-  exc s2 = false ->
-  abs (unload w (length (ntf s)) s2) = abs s2.
+  w && exc s2 = false ->
+  abs (leave w (length (ntf s)) s2) = abs s2.
 Proof.
-  intros H (t2 & rest2 & new & newn & H1 & H2 & H3 & H4) X.
+  intros H (t2 & rest2 & new & newn & H1 & H2 & H3 & H4) X. unfold leave. rewrite abs_mark.
   destruct w; simpl in *; auto. unfold unload. rewrite X. inv H3.
   unfold abs. simpl. rewrite H1. simpl. unfold flat. simpl. rewrite <- app_assoc.
-  destruct (lnc t2); reflexivity.
+  destruct (lnc t2), (lvc t2); reflexivity.
 Qed.
 
 (* leaving a layered frame with an exception pending: the flat view is what it was at the call *)
 Lemma unload_drop_abs s t rest s2 :
   lay s = t :: rest ->
-  frameP (mkL [] None) (t :: rest) (ntf s) s2 ->
+  frameP (mkL [] None None) (t :: rest) (ntf s) s2 ->
   exc s2 = true ->
   abs (unload true (length (ntf s)) s2) = rollback (abs s).
 Proof.
   intros H (t2 & rest2 & new & newn & H1 & H2 & H3 & H4) X.
   unfold unload. rewrite X. unfold abs, rollback. simpl. rewrite H1. simpl.
   rewrite H4, firstn_app, firstn_all, Nat.sub_diag, app_nil_r. simpl.
-  rewrite H, <- (lower_eq_flat _ _ H3), <- (lower_eq_nc _ _ H3). reflexivity.
+  rewrite H, <- (lower_eq_flat _ _ H3), <- (lower_eq_nc _ _ H3), <- (lower_eq_vc _ _ H3). reflexivity.
 Qed.
 
 (* ---------- flags ---------- *)
@@ -185,18 +192,36 @@ Proof.
       specialize (FIN false s1 A (fun _ => Hb)). destruct (fin_of rf false s1); auto.
 Qed.
 
+Lemma exc_mint a d s : exc (mint_state a d s) = exc s.
+Proof. unfold mint_state. destruct (d =? 0); reflexivity. Qed.
+Lemma exc_neo cid to amt s : exc (neo_state cid to amt s) = exc s.
+Proof. reflexivity. Qed.
+Lemma exc_leave w b s : exc (leave w b s) = exc s.
+Proof. unfold leave. simpl. apply unload_exc. Qed.
+Lemma exc_enter w s : exc (enter w s) = exc s.
+Proof. destruct w; reflexivity. Qed.
+
 Lemma exec_exc pol p : forall cid fl it, excd (exec pol p cid fl it).
 Proof.
-  induction p as [| | | | | |to amt cb IHcb| |p1 p2 IHp1 IHp2|c rf body IHbody|b c f IHb IHc IHf| |] using prog_ind';
-    intros cid cf it s; simpl; auto; try (case_if; simpl; auto; fail).
+  induction p as [| | | | | |to amt cb IHcb|to amt cb IHcb| |p1 p2 IHp1 IHp2|c rf body IHbody|b c f IHb IHc IHf| |] using prog_ind';
+    intros cid cf it s; cbn [exec]; auto; try (case_if; simpl; auto; fail).
   - (* Move *)
-    case_if; auto. case_if. { simpl. rewrite unload_exc. destruct (wrapped it cf); auto. }
+    case_if; auto. cbv zeta. case_if. { simpl. rewrite unload_exc. destruct (wrapped it cf); auto. }
     case_if.
     + match goal with |- context [exec pol cb to fAll false ?s3] => specialize (IHcb to fAll false s3); set (S3 := s3) in * end.
       assert (X : exc S3 = exc s) by (subst S3; destruct (wrapped it cf); reflexivity).
       destruct (exec pol cb to fAll false S3) as [s4|s4|s4]; auto.
       destruct (exc s4) eqn:E; auto. simpl. rewrite unload_exc. auto.
     + simpl. rewrite unload_exc. destruct (wrapped it cf); auto.
+  - (* MoveNeo *)
+    case_if; auto. cbv zeta. case_if. { simpl. rewrite unload_exc, exc_enter. auto. }
+    set (S3 := neo_state cid to amt (enter (wrapped it cf) s)).
+    assert (X : exc S3 = exc s) by (subst S3; rewrite exc_neo, exc_enter; reflexivity).
+    destruct (is_contract to).
+    + specialize (IHcb to fAll false S3).
+      destruct (exec pol cb to fAll false S3) as [s4|s4|s4]; auto.
+      case_if; auto. cbn beta iota. intros Z. rewrite exc_leave, !exc_mint. rewrite X in IHcb. exact (IHcb Z).
+    + case_if; auto. cbn beta iota. intros Z. rewrite exc_leave, !exc_mint, X. exact Z.
   - (* SetFee *)
     case_if; auto. simpl. rewrite unload_exc. destruct (wrapped it cf); auto.
   - (* Seq *)
@@ -240,7 +265,7 @@ Qed.
 
 Lemma exec_ro pol p : forall cid fl it, ro fl = true -> pres (exec pol p cid fl it).
 Proof.
-  induction p as [| | | | | |to amt cb IHcb| |p1 p2 IHp1 IHp2|c rf body IHbody|b c f IHb IHc IHf| |] using prog_ind';
+  induction p as [| | | | | |to amt cb IHcb|to amt cb IHcb| |p1 p2 IHp1 IHp2|c rf body IHbody|b c f IHb IHc IHf| |] using prog_ind';
     intros cid cf it R s; simpl; auto;
     try (rewrite ?(ro_W _ R), ?(ro_N _ R), ?(ro_All _ R), ?andb_false_r; simpl; auto; fail).
   - (* Seq *)
@@ -254,87 +279,6 @@ Proof.
     destruct (exec pol body c (N.land cf rf) false s); auto.
   - (* Try *)
     apply try_of_pres; [apply IHb; auto | destruct c; simpl in *; auto | destruct f; simpl in *; auto].
-Qed.
-
-(* ---------- programs without contract calls: both semantics do the same ---------- *)
-
-Definition sim_all (r : res) (ri : ires) : Prop :=
-  match r, ri with
-  | Normal s', INormal i' | Thrown s', IThrown i' => i' = abs s'
-  | Fault _, IFault => True
-  | _, _ => False
-  end.
-Definition rel (run : mstate -> res) (irun : istate -> ires) : Prop :=
-  forall s, ne s -> sim_all (run s) (irun (abs s)).
-Definition orel (o : option (mstate -> res)) (oi : option (istate -> ires)) : Prop :=
-  match o, oi with
-  | Some r, Some ri => rel r ri
-  | None, None => True
-  | _, _ => False
-  end.
-
-Lemma orel_some o oi : orel o oi -> is_some o = is_some oi.
-Proof. destruct o, oi; simpl; tauto. Qed.
-
-Lemma framed_ne run s : framed run -> ne s -> match run s with Normal s' | Thrown s' => ne s' | Fault _ => True end.
-Proof.
-  intros F H. destruct (ne_cons s H) as (t & r & E). specialize (F s t r E).
-  destruct (run s); simpl in F; auto; eapply frameP_ne; eauto.
-Qed.
-
-Lemma fin_rel rf irf ne0 s0 :
-  orel rf irf -> ne s0 -> sim_all (fin_of rf ne0 s0) (ifin_of irf ne0 (abs s0)).
-Proof.
-  intros Hf H. unfold fin_of, ifin_of. destruct rf as [run|], irf as [irun|]; simpl in Hf; try tauto.
-  - specialize (Hf s0 H). destruct (run s0) as [s'|s'|s'], (irun (abs s0)) as [i'|i'|]; simpl in *; try tauto.
-    subst i'. simpl. destruct (exc s'); simpl; auto. destruct ne0; simpl; auto.
-  - destruct ne0; simpl; auto.
-Qed.
-
-Lemma try_rel rb rc rf irb irc irf :
-  rel rb irb -> orel rc irc -> orel rf irf -> framed rb -> oframed rc ->
-  rel (try_of rb rc rf) (itry_of irb irc irf).
-Proof.
-  intros Hb Hc Hf Fb Fc s H. unfold try_of, itry_of.
-  rewrite <- (orel_some _ _ Hc), <- (orel_some _ _ Hf).
-  destruct (is_some rc || is_some rf); simpl; auto.
-  pose proof (Hb s H) as B. pose proof (framed_ne rb s Fb H) as N1.
-  destruct (rb s) as [s1|s1|s1], (irb (abs s)) as [i1|i1|]; simpl in B; try tauto; subst.
-  - apply fin_rel; auto.
-  - destruct rc as [run|], irc as [irun|]; simpl in Hc; try tauto.
-    + assert (N1' : ne (set_exc s1 false)) by exact N1.
-      pose proof (Hc _ N1') as C. pose proof (framed_ne run _ Fc N1') as N2.
-      rewrite abs_exc in C.
-      destruct (run (set_exc s1 false)) as [s2|s2|s2], (irun (iset_exc (abs s1) false)) as [i2|i2|];
-        simpl in C; try tauto; subst; apply fin_rel; auto.
-    + apply fin_rel; auto.
-Qed.
-
-Lemma exec_nc pol p : nocalls p = true -> forall cid fl it, rel (exec pol p cid fl it) (iexec p cid fl).
-Proof.
-  induction p as [| | | | | |to amt cb IHcb| |p1 p2 IHp1 IHp2|c rf body IHbody|b c f IHb IHc IHf| |] using prog_ind';
-    intros NC cid cf it s H; simpl in *; try discriminate.
-  - reflexivity.
-  - case_if; simpl; auto. rewrite abs_put; auto.
-  - case_if; simpl; auto. rewrite abs_put; auto.
-  - case_if; simpl; auto.
-  - case_if; simpl; auto. rewrite lget_flat. reflexivity.
-  - (* Seq *)
-    apply andb_true_iff in NC. destruct NC as [N1 N2].
-    pose proof (IHp1 N1 cid cf it s H) as B. pose proof (exec_ne pol p1 cid cf it s H) as E.
-    destruct (exec pol p1 cid cf it s) as [s1|s1|s1], (iexec p1 cid cf (abs s)) as [i1|i1|]; simpl in B; try tauto; subst.
-    apply IHp2; auto.
-  - (* Try *)
-    apply andb_true_iff in NC. destruct NC as [NC N3]. apply andb_true_iff in NC. destruct NC as [N1 N2].
-    apply try_rel;
-      [apply IHb; auto
-      |destruct c; simpl in *; auto; apply IHc; auto
-      |destruct f; simpl in *; auto; apply IHf; auto
-      |apply exec_frame
-      |destruct c; simpl; auto; apply exec_frame
-      |exact H].
-  - reflexivity.
-  - simpl. auto.
 Qed.
 
 (* ---------- native state changes in the flat view ---------- *)
@@ -363,25 +307,136 @@ Proof.
   intros H. destruct (ne_cons s H) as (t & r & E). unfold setfee_state, isetfee, abs. rewrite E. simpl.
   match goal with |- context [nc_set v (?tt :: ?rr)] =>
     destruct (nc_set_frame tt rr v) as (t' & rest' & N1 & N2 & N3);
-    assert (G : nc_get (nc_set v (tt :: rr)) = Some v) end.
-  { unfold nc_set. simpl. destruct (lnc t); simpl; auto. destruct (nc_rw r); reflexivity. }
-  rewrite G. rewrite N1. pose proof (lower_eq_flat _ _ N3) as L. unfold flat in *. simpl. rewrite N2. simpl.
+    pose proof (nc_set_get tt rr v) as G; pose proof (nc_set_vc tt rr v) as V end.
+  rewrite G, V. rewrite N1. pose proof (lower_eq_flat _ _ N3) as L. unfold flat in *. simpl. rewrite N2. simpl.
   rewrite <- L. reflexivity.
+Qed.
+
+Lemma flat_apply_eff e ls : ls <> [] -> flat (apply_eff e ls) = e (flat ls) ++ flat ls.
+Proof. destruct ls as [|l r]; [congruence|]. intros _. unfold apply_eff, flat. simpl. rewrite app_assoc. reflexivity. Qed.
+Lemma nc_apply_eff e ls : nc_get (apply_eff e ls) = nc_get ls.
+Proof. destruct ls; reflexivity. Qed.
+Lemma vc_apply_eff e ls : vc_get (apply_eff e ls) = vc_get ls.
+Proof. destruct ls; reflexivity. Qed.
+
+Lemma abs_mint a d s : ne s -> abs (mint_state a d s) = imint a d (abs s).
+Proof.
+  intros H. unfold mint_state, imint. destruct (d =? 0); auto.
+  unfold abs, iadd, ieff. simpl. rewrite flat_apply_eff, nc_apply_eff, vc_apply_eff; auto.
+Qed.
+
+Lemma abs_neo cid to amt s : ne s -> abs (neo_state cid to amt s) = ineo cid to amt (abs s).
+Proof.
+  intros H. destruct (ne_cons s H) as (t & r & E). unfold neo_state, ineo.
+  destruct ((cid =? to) || (amt =? 0)).
+  - unfold abs, iadd, ieff. simpl. rewrite flat_apply_eff, nc_apply_eff, vc_apply_eff; auto.
+  - unfold abs, iadd, ieff. simpl.
+    pose proof (flat_apply_eff (neo_eff cid to amt) (lay s) H) as FL.
+    rewrite E in *. unfold apply_eff in *.
+    match goal with |- context [vc_set 1 (?tt :: ?rr)] =>
+      destruct (vc_set_frame tt rr 1) as (t' & rest' & V1 & V2 & V3);
+      rewrite (vc_set_get tt rr 1), (vc_set_nc tt rr 1) end.
+    rewrite V1. pose proof (lower_eq_flat _ _ V3) as L.
+    unfold flat in *. simpl in *. rewrite V2. simpl. rewrite <- L. rewrite <- app_assoc. reflexivity.
+Qed.
+
+(* ---------- the ghost flag only goes up ---------- *)
+
+Definition rstate (r : res) : mstate := match r with Normal s | Thrown s | Fault s => s end.
+Definition mono (run : mstate -> res) : Prop := forall s, bad s = true -> bad (rstate (run s)) = true.
+Definition omono (o : option (mstate -> res)) : Prop := match o with Some r => mono r | None => True end.
+
+Lemma mono_inv run s : mono run -> bad (rstate (run s)) = false -> bad s = false.
+Proof. intros M H. destruct (bad s) eqn:E; auto. rewrite (M s E) in H. discriminate. Qed.
+
+Lemma bad_unload w b s : bad (unload w b s) = bad s.
+Proof. unfold unload. destruct w; auto. destruct (exc s); reflexivity. Qed.
+Lemma bad_leave w b s : bad (leave w b s) = bad s || (w && exc s).
+Proof. unfold leave. simpl. rewrite bad_unload. reflexivity. Qed.
+Lemma bad_enter w s : bad (enter w s) = bad s.
+Proof. destruct w; reflexivity. Qed.
+
+Lemma fin_of_mono rf ne0 : omono rf -> mono (fin_of rf ne0).
+Proof.
+  intros Hf s B. unfold fin_of. destruct rf as [run|].
+  - specialize (Hf s B). destruct (run s) as [s'|s'|s']; simpl in *; auto.
+    destruct (exc s'); simpl; auto. destruct ne0; simpl; auto.
+  - destruct ne0; simpl; auto.
+Qed.
+
+Lemma try_of_mono rb rc rf : mono rb -> omono rc -> omono rf -> mono (try_of rb rc rf).
+Proof.
+  intros Hb Hc Hf s B. unfold try_of. destruct (is_some rc || is_some rf); simpl; auto.
+  specialize (Hb s B). destruct (rb s) as [s1|s1|s1]; simpl in *; auto.
+  - apply fin_of_mono; auto.
+  - destruct rc as [run|].
+    + assert (B1 : bad (set_exc s1 false) = true) by exact Hb.
+      specialize (Hc _ B1). destruct (run (set_exc s1 false)) as [s2|s2|s2]; simpl in *; auto; apply fin_of_mono; auto.
+    + apply fin_of_mono; auto.
+Qed.
+
+Lemma bad_leave_false w b s : bad (rstate (Normal (leave w b s))) = false -> bad s = false /\ w && exc s = false.
+Proof. change (bad (leave w b s) = false -> bad s = false /\ w && exc s = false). rewrite bad_leave. apply orb_false_iff. Qed.
+
+Lemma bad_mint a d s : bad (mint_state a d s) = bad s.
+Proof. unfold mint_state. destruct (d =? 0); reflexivity. Qed.
+Lemma bad_neo cid to amt s : bad (neo_state cid to amt s) = bad s.
+Proof. reflexivity. Qed.
+
+Ltac fin_bad B :=
+  simpl; rewrite ?bad_leave, ?bad_unload; simpl; rewrite ?bad_mint, ?bad_neo, ?bad_enter; simpl; rewrite ?B; simpl; auto.
+
+Lemma exec_mono pol p : forall cid fl it, mono (exec pol p cid fl it).
+Proof.
+  induction p as [| | | | | |to amt cb IHcb|to amt cb IHcb| |p1 p2 IHp1 IHp2|c rf body IHbody|b c f IHb IHc IHf| |] using prog_ind';
+    intros cid cf it s B; cbn [exec]; auto; try (case_if; simpl; auto; fail).
+  - (* Move *)
+    case_if; [|simpl; auto]. cbv zeta. case_if. { fin_bad B. }
+    case_if.
+    + match goal with |- context [exec pol cb to fAll false ?s3] => specialize (IHcb to fAll false s3); set (S3 := s3) in * end.
+      assert (X : bad S3 = true) by (subst S3; simpl; rewrite bad_enter; exact B).
+      specialize (IHcb X).
+      destruct (exec pol cb to fAll false S3) as [s4|s4|s4]; simpl in *; auto.
+      destruct (exc s4); [fin_bad IHcb|fin_bad IHcb].
+    + fin_bad B.
+  - (* MoveNeo *)
+    case_if; [|simpl; auto]. cbv zeta. case_if. { fin_bad B. }
+    set (S3 := neo_state cid to amt (enter (wrapped it cf) s)).
+    assert (X : bad S3 = true) by (subst S3; rewrite bad_neo, bad_enter; exact B).
+    destruct (is_contract to).
+    + specialize (IHcb to fAll false S3 X).
+      destruct (exec pol cb to fAll false S3) as [s4|s4|s4]; simpl in *; auto.
+      case_if; fin_bad IHcb.
+    + case_if; fin_bad B; rewrite ?bad_enter, ?B; auto.
+  - (* SetFee *)
+    case_if; [|simpl; auto]. fin_bad B.
+  - (* Seq *)
+    specialize (IHp1 cid cf it s B). destruct (exec pol p1 cid cf it s) as [s1|s1|s1]; simpl in *; auto.
+    apply IHp2; auto.
+  - (* Call *)
+    case_if; [|simpl; auto]. cbv zeta.
+    specialize (IHbody c (N.land cf rf) false (enter (wrapped it (N.land cf rf)) s)).
+    rewrite bad_enter in IHbody. specialize (IHbody B).
+    destruct (exec pol body c (N.land cf rf) false _); simpl in IHbody; fin_bad IHbody.
+  - (* Try *)
+    apply try_of_mono; [apply IHb | destruct c; simpl in *; auto | destruct f; simpl in *; auto | exact B].
 Qed.
 
 (* ---------- the simulation ---------- *)
 
 (* C: the flat views are still related when the program THROWS.  They are not when an un-layered callee has
    thrown (its writes are still in the caller's layer); C = "we are inside a try body of this contract
-   invocation, or the program makes no call outside one". *)
+   invocation, or the program makes no call outside one".  Everything is claimed for runs whose ghost flag stays
+   down: no layered frame / payment callback returned while an exception was pending. *)
+Definition agree (C : bool) (r : res) (ri : ires) : Prop :=
+  match r, ri with
+  | Normal s', INormal i' => i' = abs s'
+  | Thrown s', IThrown i' => C = true -> i' = abs s'
+  | Fault _, IFault => True
+  | _, _ => False
+  end.
 Definition simP (C : bool) (run : mstate -> res) (irun : istate -> ires) : Prop :=
-  forall s, ne s -> exc s = false ->
-    match run s, irun (abs s) with
-    | Normal s', INormal i' => i' = abs s'
-    | Thrown s', IThrown i' => C = true -> i' = abs s'
-    | Fault _, IFault => True
-    | _, _ => False
-    end.
+  forall s, ne s -> bad (rstate (run s)) = false -> agree C (run s) (irun (abs s)).
 Definition osimP (C : bool) (o : option (mstate -> res)) (oi : option (istate -> ires)) : Prop :=
   match o, oi with
   | Some r, Some ri => simP C r ri
@@ -392,45 +447,87 @@ Definition osimP (C : bool) (o : option (mstate -> res)) (oi : option (istate ->
 Lemma osimP_some C o oi : osimP C o oi -> is_some o = is_some oi.
 Proof. destruct o, oi; simpl; tauto. Qed.
 
-Lemma sim_all_weaken C r ri :
-  sim_all r ri ->
-  match r, ri with
-  | Normal s', INormal i' => i' = abs s'
-  | Thrown s', IThrown i' => C = true -> i' = abs s'
-  | Fault _, IFault => True
-  | _, _ => False
-  end.
-Proof. destruct r, ri; simpl; auto. Qed.
-
-Lemma try_sim C Cc rb rc rf irb irc irf :
-  simP true rb irb -> osimP Cc rc irc -> orel rf irf -> framed rb -> oframed rc ->
-  (is_some rf = true -> Cc = true) -> (C = true -> Cc = true) ->
-  simP C (try_of rb rc rf) (itry_of irb irc irf).
+Lemma framed_ne run s : framed run -> ne s -> match run s with Normal s' | Thrown s' => ne s' | Fault _ => True end.
 Proof.
-  intros Hb Hc Hf Fb Fc G1 G2 s H X. unfold try_of, itry_of.
-  rewrite <- (osimP_some _ _ _ Hc), <- (orel_some _ _ Hf).
-  destruct (is_some rc || is_some rf); simpl; auto.
-  pose proof (Hb s H X) as B. pose proof (framed_ne rb s Fb H) as N1.
-  destruct (rb s) as [s1|s1|s1], (irb (abs s)) as [i1|i1|]; simpl in B; try tauto.
-  - subst. apply sim_all_weaken, fin_rel; auto.
-  - specialize (B eq_refl). subst.
-    destruct rc as [run|], irc as [irun|]; simpl in Hc; try tauto.
-    + assert (N1' : ne (set_exc s1 false)) by exact N1.
-      pose proof (Hc _ N1' eq_refl) as CC. pose proof (framed_ne run _ Fc N1') as N2.
-      rewrite abs_exc in CC.
-      destruct (run (set_exc s1 false)) as [s2|s2|s2], (irun (iset_exc (abs s1) false)) as [i2|i2|];
-        simpl in CC; try tauto.
-      * subst. apply sim_all_weaken, fin_rel; auto.
-      * destruct rf as [runf|] eqn:RF, irf as [irunf|]; simpl in Hf; try tauto.
-        -- rewrite (CC (G1 eq_refl)). apply sim_all_weaken.
-           apply (fin_rel (Some runf) (Some irunf)); auto.
-        -- simpl. intros HC. apply CC, G2, HC.
-    + apply sim_all_weaken, fin_rel; auto.
+  intros F H. destruct (ne_cons s H) as (t & r & E). specialize (F s t r E).
+  destruct (run s); simpl in F; auto; eapply frameP_ne; eauto.
 Qed.
 
-Ltac split_guard G :=
-  unfold guard in G; simpl in G;
-  repeat (rewrite ?andb_true_iff in G).
+(* the finally block, from a related state *)
+Lemma fin_sim Cf rf irf ne0 s0 :
+  osimP Cf rf irf -> ne s0 -> bad (rstate (fin_of rf ne0 s0)) = false ->
+  agree Cf (fin_of rf ne0 s0) (ifin_of irf ne0 (abs s0)).
+Proof.
+  intros Hf H B. unfold fin_of, ifin_of in *. destruct rf as [run|], irf as [irun|]; simpl in Hf; try tauto.
+  - specialize (Hf s0 H).
+    destruct (run s0) as [s'|s'|s'] eqn:R; simpl in *.
+    + assert (B' : bad s' = false).
+      { destruct (exc s'); simpl in B; auto. destruct ne0; simpl in B; auto. }
+      specialize (Hf B'). destruct (irun (abs s0)) as [i'|i'|]; try tauto. subst i'. simpl.
+      destruct (exc s'); simpl; auto. destruct ne0; simpl; auto.
+    + specialize (Hf B). destruct (irun (abs s0)); try tauto.
+    + specialize (Hf B). destruct (irun (abs s0)); try tauto.
+  - destruct ne0; simpl; auto.
+Qed.
+
+Lemma agree_weaken C C' r ri : (C' = true -> C = true) -> agree C r ri -> agree C' r ri.
+Proof. intros I. destruct r, ri; simpl; auto. Qed.
+
+Lemma try_sim C Cc Cf rb rc rf irb irc irf :
+  simP true rb irb -> osimP Cc rc irc -> osimP Cf rf irf ->
+  framed rb -> oframed rc -> omono rc -> omono rf ->
+  (is_some rf = true -> Cc = true) -> (C = true -> Cc = true) -> (C = true -> Cf = true) ->
+  simP C (try_of rb rc rf) (itry_of irb irc irf).
+Proof.
+  intros Hb Hc Hf Fb Fc Mc Mf G1 G2 G3 s H B. unfold try_of, itry_of in *.
+  rewrite <- (osimP_some _ _ _ Hc), <- (osimP_some _ _ _ Hf).
+  destruct (is_some rc || is_some rf); simpl; auto.
+  pose proof (framed_ne rb s Fb H) as N1.
+  destruct (rb s) as [s1|s1|s1] eqn:RB.
+  - (* body normal *)
+    assert (B1 : bad s1 = false) by (apply (mono_inv (fin_of rf true)); [apply fin_of_mono; auto|exact B]).
+    pose proof (Hb s H) as HB. rewrite RB in HB. specialize (HB B1). simpl in HB.
+    destruct (irb (abs s)) as [i1|i1|]; try tauto. subst.
+    eapply agree_weaken; [exact G3|]. apply fin_sim; auto.
+  - (* body thrown *)
+    destruct rc as [run|], irc as [irun|]; simpl in Hc; try tauto.
+    + assert (N1' : ne (set_exc s1 false)) by exact N1.
+      pose proof (framed_ne run _ Fc N1') as N2.
+      destruct (run (set_exc s1 false)) as [s2|s2|s2] eqn:RC.
+      * assert (B2 : bad s2 = false) by (apply (mono_inv (fin_of rf true)); [apply fin_of_mono; auto|exact B]).
+        assert (B1 : bad s1 = false).
+        { pose proof (mono_inv run (set_exc s1 false) Mc) as Q. rewrite RC in Q. exact (Q B2). }
+        pose proof (Hb s H) as HB. rewrite RB in HB. specialize (HB B1). simpl in HB.
+        destruct (irb (abs s)) as [i1|i1|]; try tauto. specialize (HB eq_refl). subst.
+        pose proof (Hc _ N1') as CC. rewrite RC in CC. specialize (CC B2). rewrite abs_exc in CC. simpl in CC.
+        destruct (irun (iset_exc (abs s1) false)) as [i2|i2|]; try tauto. subst.
+        eapply agree_weaken; [exact G3|]. apply fin_sim; auto.
+      * assert (B2 : bad s2 = false) by (apply (mono_inv (fin_of rf false)); [apply fin_of_mono; auto|exact B]).
+        assert (B1 : bad s1 = false).
+        { pose proof (mono_inv run (set_exc s1 false) Mc) as Q. rewrite RC in Q. exact (Q B2). }
+        pose proof (Hb s H) as HB. rewrite RB in HB. specialize (HB B1). simpl in HB.
+        destruct (irb (abs s)) as [i1|i1|]; try tauto. specialize (HB eq_refl). subst.
+        pose proof (Hc _ N1') as CC. rewrite RC in CC. specialize (CC B2). rewrite abs_exc in CC. simpl in CC.
+        destruct (irun (iset_exc (abs s1) false)) as [i2|i2|]; try tauto.
+        destruct rf as [runf|] eqn:RF, irf as [irunf|]; simpl in Hf; try tauto.
+        -- rewrite (CC (G1 eq_refl)). eapply agree_weaken; [exact G3|].
+           apply (fin_sim Cf (Some runf) (Some irunf)); auto.
+        -- simpl. intros HC. apply CC, G2, HC.
+      * simpl in B.
+        assert (B1 : bad s1 = false).
+        { pose proof (mono_inv run (set_exc s1 false) Mc) as Q. rewrite RC in Q. exact (Q B). }
+        pose proof (Hb s H) as HB. rewrite RB in HB. specialize (HB B1). simpl in HB.
+        destruct (irb (abs s)) as [i1|i1|]; try tauto. specialize (HB eq_refl). subst.
+        pose proof (Hc _ N1') as CC. rewrite RC in CC. specialize (CC B). rewrite abs_exc in CC. simpl in CC.
+        destruct (irun (iset_exc (abs s1) false)) as [i2|i2|]; try tauto.
+    + assert (B1 : bad s1 = false) by (apply (mono_inv (fin_of rf false)); [apply fin_of_mono; auto|exact B]).
+      pose proof (Hb s H) as HB. rewrite RB in HB. specialize (HB B1). simpl in HB.
+      destruct (irb (abs s)) as [i1|i1|]; try tauto. specialize (HB eq_refl). subst.
+      eapply agree_weaken; [exact G3|]. apply fin_sim; auto.
+  - (* body fault *)
+    simpl in B. pose proof (Hb s H) as HB. rewrite RB in HB. specialize (HB B). simpl in HB.
+    destruct (irb (abs s)); try tauto.
+Qed.
 
 Lemma guard_seq pol p q : guard pol (Seq p q) = true -> guard pol p = true /\ guard pol q = true.
 Proof. unfold guard. simpl. destruct pol; rewrite ?andb_true_iff; tauto. Qed.
@@ -438,28 +535,29 @@ Lemma guard_call pol c f b : guard pol (Call c f b) = true -> guard pol b = true
 Proof. auto. Qed.
 Lemma guard_move pol to amt cb : guard pol (Move to amt cb) = true -> guard pol cb = true.
 Proof. auto. Qed.
+Lemma guard_moveneo pol to amt cb : guard pol (MoveNeo to amt cb) = true -> guard pol cb = true.
+Proof. auto. Qed.
 Lemma guard_try pol b c f :
   guard pol (Try b c f) = true ->
-  guard pol b = true /\ oall (guard pol) c = true /\ oall nocalls f = true /\
+  guard pol b = true /\ oall (guard pol) c = true /\ oall (guard pol) f = true /\
   (pol = Lazy -> match c, f with Some c', Some _ => bare_free c' = true | _, _ => True end).
 Proof.
-  unfold guard. simpl. destruct pol; intros H; repeat (apply andb_true_iff in H; destruct H as [H ?]).
-  - repeat (match goal with X : _ && _ = true |- _ => apply andb_true_iff in X; destruct X end).
-    split; [|split; [|split]]; auto.
-    + apply andb_true_iff; auto.
-    + destruct c; simpl in *; auto. apply andb_true_iff; auto.
-    + intros _. destruct c, f; auto.
-  - split; [|split; [|split]]; auto.
-    + rewrite H. reflexivity.
-    + destruct c; simpl in *; auto. rewrite andb_true_r. auto.
-    + discriminate.
+  unfold guard. simpl. destruct pol; intros H.
+  - repeat (apply andb_true_iff in H; destruct H as [H ?]).
+    split; [|split; [|split]]; auto. intros _. destruct c, f; auto.
+  - split; [|split; [|split]]; auto; try (destruct c; reflexivity); try (destruct f; reflexivity). discriminate.
 Qed.
+
+Lemma orb_C_l it a b : it || (a && b) = true -> it || a = true.
+Proof. destruct it, a; simpl; auto. Qed.
+Lemma orb_C_r it a b : it || (a && b) = true -> it || b = true.
+Proof. destruct it, a, b; simpl; auto. Qed.
 
 Theorem exec_sim pol p :
   guard pol p = true -> forall cid fl it, simP (it || bare_free p) (exec pol p cid fl it) (iexec p cid fl).
 Proof.
-  induction p as [| | | | | |to amt cb IHcb| |p1 p2 IHp1 IHp2|c rf body IHbody|b c f IHb IHc IHf| |] using prog_ind';
-    intros G cid cf it s H X; simpl exec; simpl iexec.
+  induction p as [| | | | | |to amt cb IHcb|to amt cb IHcb| |p1 p2 IHp1 IHp2|c rf body IHbody|b c f IHb IHc IHf| |] using prog_ind';
+    intros G cid cf it s H B; cbn [exec iexec] in *.
   - reflexivity.
   - case_if; simpl; auto. rewrite abs_put; auto.
   - case_if; simpl; auto. rewrite abs_put; auto.
@@ -467,82 +565,143 @@ Proof.
   - case_if; simpl; auto. rewrite lget_flat. reflexivity.
   - case_if; simpl; auto.
   - (* Move *)
-    case_if; simpl; auto.
-    set (w := wrapped it cf). destruct (ne_cons s H) as (t & rest & E).
+    case_if; [|simpl; auto]. cbv zeta in *.
+    set (w := wrapped it cf) in *. destruct (ne_cons s H) as (t & rest & E).
     destruct (enter_lay w s t rest E) as (E1 & E2 & E3).
     assert (N1 : ne (enter w s)) by (unfold ne; rewrite E1; discriminate).
-    rewrite bal_abs, abs_enter.
+    rewrite bal_abs, abs_enter in *.
     case_if.
-    { simpl. rewrite unload_commit_abs with (t := t) (rest := rest); auto.
+    { apply bad_leave_false in B. destruct B as [_ B]. simpl.
+      rewrite unload_commit_abs with (t := t) (rest := rest); auto.
       - symmetry. apply abs_enter.
-      - rewrite <- E2. apply frameP_refl; auto.
-      - congruence. }
+      - rewrite <- E2. apply frameP_refl; auto. }
     pose proof (move_state_frame cid to amt _ _ _ E1) as F3. rewrite E2 in F3.
     pose proof (abs_move cid to amt _ N1) as A3. rewrite abs_enter in A3.
-    assert (X3 : exc (move_state cid to amt (enter w s)) = false) by (simpl; congruence).
     case_if.
-    + pose proof (IHcb (guard_move _ _ _ _ G) to fAll false _ (frameP_ne _ _ _ _ F3) X3) as B.
-      rewrite A3 in B.
-      pose proof (exec_exc pol cb to fAll false (move_state cid to amt (enter w s))) as XX.
+    + pose proof (IHcb (guard_move _ _ _ _ G) to fAll false _ (frameP_ne _ _ _ _ F3)) as IH.
+      rewrite A3 in IH.
       destruct F3 as (t3 & r3 & new3 & newn3 & G1 & G2 & G3 & G4).
       pose proof (exec_frame pol cb to fAll false _ _ _ G1) as FR.
-      destruct (exec pol cb to fAll false (move_state cid to amt (enter w s))) as [s4|s4|s4],
-               (iexec cb to fAll (imove cid to amt (abs s))) as [i4|i4|]; simpl in B; try tauto.
-      subst i4. rewrite (XX X3). simpl.
+      destruct (exec pol cb to fAll false (move_state cid to amt (enter w s))) as [s4|s4|s4].
+      * destruct (exc s4) eqn:X4.
+        { simpl in B. rewrite orb_true_r in B. discriminate. }
+        apply bad_leave_false in B. destruct B as [B4 BW].
+        specialize (IH B4). simpl in IH.
+        destruct (iexec cb to fAll (imove cid to amt (abs s))) as [i4|i4|]; try tauto. subst i4. simpl.
+        rewrite unload_commit_abs with (t := t) (rest := rest); auto.
+        simpl in FR. eapply frameP_trans.
+        { exists t3, r3, new3, newn3. repeat split; eauto. }
+        intros t1 rest1 L1. rewrite G1 in L1. inv L1. exact FR.
+      * simpl in B. specialize (IH B). simpl in IH.
+        destruct (iexec cb to fAll (imove cid to amt (abs s))); try tauto. simpl. auto.
+      * simpl in B. specialize (IH B). simpl in IH.
+        destruct (iexec cb to fAll (imove cid to amt (abs s))); try tauto.
+    + apply bad_leave_false in B. destruct B as [_ B]. simpl.
       rewrite unload_commit_abs with (t := t) (rest := rest); auto.
-      simpl in FR. eapply frameP_trans.
-      { exists t3, r3, new3, newn3. repeat split; eauto. }
-      intros t1 rest1 L1. rewrite G1 in L1. inv L1. exact FR.
-    + simpl. rewrite unload_commit_abs with (t := t) (rest := rest); auto.
-  - (* SetFee *)
-    case_if; simpl; auto.
-    set (w := wrapped it cf). destruct (ne_cons s H) as (t & rest & E).
+  - (* MoveNeo *)
+    case_if; [|simpl; auto]. cbv zeta in *.
+    set (w := wrapped it cf) in *. destruct (ne_cons s H) as (t & rest & E).
     destruct (enter_lay w s t rest E) as (E1 & E2 & E3).
     assert (N1 : ne (enter w s)) by (unfold ne; rewrite E1; discriminate).
+    change (concat (map lst (lay (enter w s)))) with (ist (abs (enter w s))) in *. rewrite abs_enter in *.
+    case_if.
+    { apply bad_leave_false in B. destruct B as [_ B]. simpl.
+      rewrite unload_commit_abs with (t := t) (rest := rest); auto.
+      - symmetry. apply abs_enter.
+      - rewrite <- E2. apply frameP_refl; auto. }
+    pose proof (neo_state_frame cid to amt _ _ _ E1) as F3. rewrite E2 in F3.
+    pose proof (abs_neo cid to amt _ N1) as A3. rewrite abs_enter in A3.
+    set (d1 := sval (ist (abs s)) (kClaim cid)) in *. set (d2 := neo_d2 cid to amt (ist (abs s))) in *.
+    set (t0 := fst (entered w t rest)) in *. set (r0 := snd (entered w t rest)) in *.
+    assert (MINT : forall s4, frameP t0 r0 (ntf s) s4 ->
+              frameP t0 r0 (ntf s) (mint_state to d2 (mint_state cid d1 s4)) /\
+              abs (mint_state to d2 (mint_state cid d1 s4)) = imint to d2 (imint cid d1 (abs s4))).
+    { intros s4 F4. split.
+      - eapply frameP_trans; [exact F4|]. intros t1 r1 L1.
+        eapply frameP_trans; [apply mint_state_frame; exact L1|]. intros t2 r2 L2. apply mint_state_frame; exact L2.
+      - assert (N4 : ne s4) by (eapply frameP_ne; eauto).
+        assert (N5 : ne (mint_state cid d1 s4)).
+        { destruct (ne_cons s4 N4) as (t1 & r1 & L1). eapply frameP_ne. apply mint_state_frame. exact L1. }
+        rewrite abs_mint, abs_mint; auto. }
+    destruct (is_contract to) eqn:IC.
+    + pose proof (IHcb (guard_moveneo _ _ _ _ G) to fAll false _ (frameP_ne _ _ _ _ F3)) as IH.
+      rewrite A3 in IH.
+      pose proof F3 as F3'. destruct F3 as (t3 & r3 & new3 & newn3 & G1 & G2 & G3 & G4).
+      pose proof (exec_frame pol cb to fAll false _ _ _ G1) as FR.
+      destruct (exec pol cb to fAll false (neo_state cid to amt (enter w s))) as [s4|s4|s4].
+      * case_if.
+        { simpl in B. rewrite orb_true_r in B. discriminate. }
+        apply bad_leave_false in B. destruct B as [B4 BW]. rewrite !bad_mint in B4.
+        specialize (IH B4). simpl in IH.
+        destruct (iexec cb to fAll (ineo cid to amt (abs s))) as [i4|i4|]; try tauto. subst i4. simpl.
+        assert (F4 : frameP t0 r0 (ntf s) s4).
+        { simpl in FR. eapply frameP_trans; [exact F3'|]. intros t1 rest1 L1. rewrite G1 in L1. inv L1. exact FR. }
+        destruct (MINT s4 F4) as [M1 M2].
+        rewrite unload_commit_abs with (t := t) (rest := rest); auto.
+      * simpl in B. specialize (IH B). simpl in IH.
+        destruct (iexec cb to fAll (ineo cid to amt (abs s))); try tauto. simpl. auto.
+      * simpl in B. specialize (IH B). simpl in IH.
+        destruct (iexec cb to fAll (ineo cid to amt (abs s))); try tauto.
+    + case_if.
+      { simpl in B. rewrite orb_true_r in B. discriminate. }
+      apply bad_leave_false in B. destruct B as [B4 BW]. simpl.
+      destruct (MINT _ F3) as [M1 M2].
+      rewrite unload_commit_abs with (t := t) (rest := rest); auto.
+      rewrite M2, A3. reflexivity.
+  - (* SetFee *)
+    case_if; [|simpl; auto]. cbv zeta in *.
+    set (w := wrapped it cf) in *. destruct (ne_cons s H) as (t & rest & E).
+    destruct (enter_lay w s t rest E) as (E1 & E2 & E3).
+    assert (N1 : ne (enter w s)) by (unfold ne; rewrite E1; discriminate).
+    apply bad_leave_false in B. destruct B as [_ B]. simpl.
     rewrite unload_commit_abs with (t := t) (rest := rest); auto.
     + rewrite abs_setfee, abs_enter; auto.
     + rewrite <- E2. apply setfee_state_frame; auto.
-    + simpl. congruence.
   - (* Seq *)
     apply guard_seq in G. destruct G as [Ga Gb].
-    pose proof (IHp1 Ga cid cf it s H X) as B.
     pose proof (exec_ne pol p1 cid cf it s H) as N1.
-    pose proof (exec_exc pol p1 cid cf it s) as X1.
-    destruct (exec pol p1 cid cf it s) as [s1|s1|s1], (iexec p1 cid cf (abs s)) as [i1|i1|]; simpl in B; try tauto.
-    + subst i1. pose proof (IHp2 Gb cid cf it s1 N1 (X1 X)) as B2.
-      destruct (exec pol p2 cid cf it s1), (iexec p2 cid cf (abs s1)); simpl in B2; try tauto.
-      intros HC. apply B2. simpl in HC. destruct it; simpl in *; auto.
-      apply andb_true_iff in HC. tauto.
-    + intros HC. apply B. simpl in HC. destruct it; simpl in *; auto.
-      apply andb_true_iff in HC. tauto.
+    destruct (exec pol p1 cid cf it s) as [s1|s1|s1] eqn:E1.
+    + assert (B1 : bad s1 = false) by (apply (mono_inv (exec pol p2 cid cf it)); [apply exec_mono|exact B]).
+      pose proof (IHp1 Ga cid cf it s H) as S1. rewrite E1 in S1. specialize (S1 B1). simpl in S1.
+      destruct (iexec p1 cid cf (abs s)) as [i1|i1|]; try tauto. subst i1.
+      eapply agree_weaken; [|apply (IHp2 Gb cid cf it s1 N1 B)]. apply orb_C_r.
+    + pose proof (IHp1 Ga cid cf it s H) as S1. rewrite E1 in S1. specialize (S1 B). simpl in S1.
+      destruct (iexec p1 cid cf (abs s)) as [i1|i1|]; try tauto. simpl.
+      intros HC. apply S1. eapply orb_C_l; eauto.
+    + pose proof (IHp1 Ga cid cf it s H) as S1. rewrite E1 in S1. specialize (S1 B). simpl in S1.
+      destruct (iexec p1 cid cf (abs s)); try tauto.
   - (* Call *)
-    case_if; simpl; auto.
-    set (fe := N.land cf rf). set (w := wrapped it fe). destruct (ne_cons s H) as (t & rest & E).
+    case_if; [|simpl; auto]. cbv zeta in *.
+    set (fe := N.land cf rf) in *. set (w := wrapped it fe) in *. destruct (ne_cons s H) as (t & rest & E).
     destruct (enter_lay w s t rest E) as (E1 & E2 & E3).
     assert (N1 : ne (enter w s)) by (unfold ne; rewrite E1; discriminate).
-    assert (X1 : exc (enter w s) = false) by congruence.
-    pose proof (IHbody (guard_call _ _ _ _ G) c fe false _ N1 X1) as B. rewrite abs_enter in B.
+    pose proof (IHbody (guard_call _ _ _ _ G) c fe false _ N1) as IH. rewrite abs_enter in IH.
     pose proof (exec_exc pol body c fe false (enter w s)) as XX.
     pose proof (exec_frame pol body c fe false _ _ _ E1) as FR. rewrite E2 in FR.
     pose proof (fun R => exec_ro pol body c fe false R (enter w s)) as PR.
-    destruct (exec pol body c fe false (enter w s)) as [s2|s2|s2], (iexec body c fe (abs s)) as [i2|i2|];
-      simpl in B; try tauto.
-    + subst i2. simpl in FR. rewrite unload_commit_abs with (t := t) (rest := rest); auto.
-    + simpl in FR. intros HC. rewrite orb_false_r in HC. subst it.
+    destruct (exec pol body c fe false (enter w s)) as [s2|s2|s2].
+    + apply bad_leave_false in B. destruct B as [B2 BW].
+      specialize (IH B2). simpl in IH. destruct (iexec body c fe (abs s)) as [i2|i2|]; try tauto. subst i2.
+      simpl in FR. simpl. rewrite unload_commit_abs with (t := t) (rest := rest); auto.
+    + simpl in B. rewrite bad_unload in B. specialize (IH B). simpl in IH.
+      destruct (iexec body c fe (abs s)) as [i2|i2|]; try tauto. simpl in *.
+      intros HC. rewrite orb_false_r in HC. subst it.
       destruct w eqn:W.
       * symmetry. apply unload_drop_abs with (t := t) (rest := rest); auto.
-      * (* not layered although inside a try body: the effective flags are read-only *)
-        destruct (PR (wrapped_false _ _ W eq_refl)) as [P1 P2].
+      * destruct (PR (wrapped_false _ _ W eq_refl)) as [P1 P2].
         unfold unload, rollback, abs. simpl. rewrite P1, P2, XX. reflexivity.
+    + simpl in B. specialize (IH B). simpl in IH. destruct (iexec body c fe (abs s)); try tauto.
   - (* Try *)
     destruct (guard_try _ _ _ _ G) as (Gb & Gc & Gf & Gl).
-    apply (try_sim (it || bare_free (Try b c f)) (catch_it pol it (is_some f) || oall bare_free c));
+    apply (try_sim (it || bare_free (Try b c f)) (catch_it pol it (is_some f) || oall bare_free c) (it || oall bare_free f));
       [ apply (IHb Gb cid cf true)
       | destruct c; simpl in *; auto; apply IHc; auto
-      | destruct f; simpl in *; auto; apply exec_nc; auto
+      | destruct f; simpl in *; auto; apply IHf; auto
       | apply exec_frame
       | destruct c; simpl; auto; apply exec_frame
-      | | | exact H | exact X ].
+      | destruct c; simpl; auto; apply exec_mono
+      | destruct f; simpl; auto; apply exec_mono
+      | | | | exact H | exact B ].
     + intros Hs. destruct f; simpl in Hs; try discriminate. simpl.
       destruct pol; simpl.
       * specialize (Gl eq_refl). destruct c; simpl in *; [rewrite Gl|]; apply orb_true_r.
@@ -550,6 +709,7 @@ Proof.
     + simpl. intros HC. destruct it; simpl in *.
       * destruct pol; reflexivity.
       * apply andb_true_iff in HC. destruct HC as [HC _]. rewrite HC. apply orb_true_r.
+    + simpl. apply orb_C_r.
   - (* Throw *)
     simpl. intros _. reflexivity.
   - (* Abort *)
@@ -559,13 +719,13 @@ Qed.
 (* ---------- transactions ---------- *)
 
 Lemma abs_start base : abs (start base) = istart base.
-Proof. unfold abs, start, istart, flat. simpl. rewrite app_nil_r. destruct (lnc base); reflexivity. Qed.
+Proof. unfold abs, start, istart, flat. simpl. rewrite app_nil_r. destruct (lnc base), (lvc base); reflexivity. Qed.
 
 Lemma lower_eq_single base r : lower_eq [base] r -> r = [base].
 Proof.
-  intros H. inversion H as [|l l' r0 r' A B C]; subst. inversion B; subst. simpl in C.
-  destruct base as [a x], l' as [b y]; simpl in *. subst.
-  destruct x, y; congruence.
+  intros H. inversion H as [|l l' r0 r' A B C D]; subst. inversion B; subst. simpl in C, D.
+  destruct base as [a x u], l' as [b y v]; simpl in *. subst.
+  destruct x, y, u, v; congruence.
 Qed.
 
 (* a transaction that does not halt leaves the block-level layer exactly as it was: for ALL programs *)
@@ -582,21 +742,25 @@ Qed.
 Definition tx_agree (m : txout) (i : iout) : Prop :=
   halted m = ihalted i /\
   (halted m = true ->
-     lst (after m) = ist (iafter i) /\ dflt (lnc (after m)) = ifee (iafter i) /\ events m = intf (iafter i)).
+     lst (after m) = ist (iafter i) /\ dflt (lnc (after m)) = ifee (iafter i) /\
+     dflt (lvc (after m)) = ivc (iafter i) /\ events m = intf (iafter i)).
 
-Theorem run_tx_exact pol base p : guard pol p = true -> tx_agree (run_tx pol base p) (irun_tx base p).
+Theorem run_tx_exact pol base p :
+  guard pol p = true -> clean (run_tx pol base p) = true -> tx_agree (run_tx pol base p) (irun_tx base p).
 Proof.
   intros G. unfold run_tx, irun_tx, tx_agree.
   assert (N0 : ne (start base)) by (unfold ne; simpl; discriminate).
-  pose proof (exec_sim pol p G ENTRY fAll false (start base) N0 eq_refl) as S. rewrite abs_start in S.
+  pose proof (exec_sim pol p G ENTRY fAll false (start base) N0) as S. rewrite abs_start in S.
   pose proof (exec_frame pol p ENTRY fAll false (start base) _ _ eq_refl) as F.
-  destruct (exec pol p ENTRY fAll false (start base)) as [s'|s'|s'],
-           (iexec p ENTRY fAll (istart base)) as [i'|i'|]; simpl in *; try tauto;
+  destruct (exec pol p ENTRY fAll false (start base)) as [s'|s'|s']; simpl in *; intros CL;
+    apply negb_true_iff in CL; specialize (S CL); simpl in S;
+    destruct (iexec p ENTRY fAll (istart base)) as [i'|i'|]; simpl in *; try tauto;
     try (split; [reflexivity|discriminate]).
   subst i'. split; auto. intros _.
   destruct F as (t' & r' & new & newn & H1 & _ & H3 & _). apply lower_eq_single in H3. subst.
   rewrite H1. simpl. unfold abs. rewrite H1. unfold flat. simpl. rewrite app_nil_r. repeat split; auto.
-  destruct (lnc t'), (lnc base); reflexivity.
+  - destruct (lnc t'), (lnc base); reflexivity.
+  - destruct (lvc t'), (lvc base); reflexivity.
 Qed.
 
 (* ---------- a caught failing call leaves no trace: what comes before and after it is kept ---------- *)
@@ -611,36 +775,64 @@ Definition obs_eq (r r' : res) : Prop :=
 
 Definition caught (c f : N) (body : prog) : prog := Try (Call c f body) (Some Skip) None.
 
+Lemma exec_seq_normal pol p q cid fl it s s1 :
+  exec pol p cid fl it s = Normal s1 -> exec pol (Seq p q) cid fl it s = exec pol q cid fl it s1.
+Proof. intros E. cbn [exec]. rewrite E. reflexivity. Qed.
+
+Lemma exec_caught_thrown pol c f body cid fl it s1 s2 :
+  exec pol (Call c f body) cid fl true s1 = Thrown s2 ->
+  exec pol (caught c f body) cid fl it s1 = Normal (set_exc s2 false).
+Proof.
+  intros E.
+  change (exec pol (caught c f body) cid fl it s1)
+    with (try_of (exec pol (Call c f body) cid fl true) (Some (exec pol Skip cid fl (catch_it pol it false))) None s1).
+  unfold try_of. cbn [is_some orb]. rewrite E. reflexivity.
+Qed.
+
 Theorem caught_call_no_trace pol pre post c f body cid fl it s :
   guard pol (Seq pre (Seq (caught c f body) post)) = true ->
   ne s -> exc s = false ->
   (forall s1, exec pol pre cid fl it s = Normal s1 -> exists s2, exec pol (Call c f body) cid fl true s1 = Thrown s2) ->
+  bad (rstate (exec pol (Seq pre (Seq (caught c f body) post)) cid fl it s)) = false ->
+  bad (rstate (exec pol (Seq pre post) cid fl it s)) = false ->
   obs_eq (exec pol (Seq pre (Seq (caught c f body) post)) cid fl it s) (exec pol (Seq pre post) cid fl it s).
 Proof.
-  intros G H X T.
+  intros G H X T BP BQ.
   assert (GQ : guard pol (Seq pre post) = true).
   { apply guard_seq in G. destruct G as [G1 G2]. apply guard_seq in G2. destruct G2 as [_ G3].
     unfold guard in *. simpl. destruct pol; rewrite ?andb_true_iff in *; tauto. }
-  pose proof (exec_sim pol _ G cid fl it s H X) as SP.
-  pose proof (exec_sim pol _ GQ cid fl it s H X) as SQ.
+  pose proof (exec_sim pol _ G cid fl it s H BP) as SP.
+  pose proof (exec_sim pol _ GQ cid fl it s H BQ) as SQ.
   assert (EQ : iexec (Seq pre (Seq (caught c f body) post)) cid fl (abs s) = iexec (Seq pre post) cid fl (abs s)).
   { apply guard_seq in G. destruct G as [G1 G2]. apply guard_seq in G2. destruct G2 as [G2 _].
-    pose proof (exec_sim pol pre G1 cid fl it s H X) as S1.
     pose proof (exec_ne pol pre cid fl it s H) as N1. pose proof (exec_exc pol pre cid fl it s) as X1.
-    unfold caught. cbn [iexec].
-    destruct (exec pol pre cid fl it s) as [s1|s1|s1] eqn:EP, (iexec pre cid fl (abs s)) as [i1|i1|] eqn:EI;
-      simpl in S1; try tauto. subst i1.
-    destruct (T s1 eq_refl) as (s2 & T2).
-    assert (GC : guard pol (Call c f body) = true).
-    { unfold guard, caught in *. simpl in G2. destruct pol; rewrite ?andb_true_iff in *; simpl; rewrite ?andb_true_iff; tauto. }
-    pose proof (exec_sim pol _ GC cid fl true s1 N1 (X1 X)) as SC. rewrite T2 in SC.
-    cbn [iexec] in SC. unfold itry_of. simpl.
-    destruct (has fl fR && has fl fC && (f <=? fAll) && is_contract c); [|tauto].
-    destruct (iexec body c (N.land fl f) (abs s1)); try tauto.
-    simpl. unfold rollback, iset_exc. simpl.
-    assert (A : {| ist := flat (lay s1); ifee := dflt (nc_get (lay s1)); intf := ntf s1; iexc := false |} = abs s1).
-    { unfold abs. rewrite (X1 X). reflexivity. }
-    rewrite A. reflexivity. }
+    destruct (exec pol pre cid fl it s) as [s1|s1|s1] eqn:EP.
+    - destruct (T s1 eq_refl) as (s2 & T2).
+      rewrite (exec_seq_normal _ _ _ _ _ _ _ _ EP) in BP. rewrite (exec_seq_normal _ _ _ _ _ _ _ _ EP) in BQ.
+      rewrite (exec_seq_normal _ _ _ _ _ _ _ _ (exec_caught_thrown pol c f body cid fl it s1 s2 T2)) in BP.
+      assert (BC : bad s2 = false).
+      { apply (mono_inv (exec pol post cid fl it)) in BP; [exact BP|apply exec_mono]. }
+      assert (B1 : bad s1 = false).
+      { apply (mono_inv (exec pol post cid fl it)) in BQ; [exact BQ|apply exec_mono]. }
+      pose proof (exec_sim pol pre G1 cid fl it s H) as S1. rewrite EP in S1. specialize (S1 B1). simpl in S1.
+      assert (GC : guard pol (Call c f body) = true).
+      { unfold guard, caught in *. simpl in G2. destruct pol; rewrite ?andb_true_iff in *; simpl; rewrite ?andb_true_iff; tauto. }
+      pose proof (exec_sim pol _ GC cid fl true s1 N1) as SC. rewrite T2 in SC. specialize (SC BC).
+      unfold caught. cbn [iexec] in *.
+      destruct (iexec pre cid fl (abs s)) as [i1|i1|]; try tauto. subst i1.
+      unfold itry_of. simpl.
+      destruct (has fl fR && has fl fC && (f <=? fAll) && is_contract c); [|simpl in SC; tauto].
+      destruct (iexec body c (N.land fl f) (abs s1)); simpl in SC; try tauto.
+      simpl. unfold rollback, iset_exc. simpl.
+      assert (A : {| ist := flat (lay s1); ifee := dflt (nc_get (lay s1)); ivc := dflt (vc_get (lay s1)); intf := ntf s1; iexc := false |} = abs s1).
+      { unfold abs. rewrite (X1 X). reflexivity. }
+      rewrite A. reflexivity.
+    - cbn [exec] in BQ. rewrite EP in BQ.
+      pose proof (exec_sim pol pre G1 cid fl it s H) as S1. rewrite EP in S1. specialize (S1 BQ). simpl in S1.
+      cbn [iexec]. destruct (iexec pre cid fl (abs s)); try tauto.
+    - cbn [exec] in BQ. rewrite EP in BQ.
+      pose proof (exec_sim pol pre G1 cid fl it s H) as S1. rewrite EP in S1. specialize (S1 BQ). simpl in S1.
+      cbn [iexec]. destruct (iexec pre cid fl (abs s)); try tauto. }
   rewrite EQ in SP.
   destruct (exec pol (Seq pre (Seq (caught c f body) post)) cid fl it s),
            (exec pol (Seq pre post) cid fl it s),
